@@ -15,7 +15,9 @@ sys.set_int_max_str_digits(0)
 PID = "C12"
 THEOREMS = ["area_export_size", "area_seal_marks", "area_parse_export_id", "registers_parse_export_id", "area_value_in_binary",
             "computed_hold", "computed_methods_meet_relation", "tz_export_size", "tz_parse_export_id", "all_areas_swept",
-            "all_areas_wf", "group_value_truncated_refuted"]
+            "all_areas_wf", "area_config_roundtrip_partial"]
+# refutation theorems of recorded findings: (theorem, class of the database sweep that carries the finding)
+REFUTED = [("group_value_truncated_refuted", "group-wider-than-its-sub-registers")]
 PFR_KINDS = ("cmpa", "cfpa", "romcfg", "cmactable")
 SKEY = {"bca": "bca", "fcf": "fcf", "fcb": "fcb_settings", "xmcd": "xmcd_settings", "tz": "trustZonePreset", "fuses": "registers"}
 SEAL = b"SEAL"
@@ -967,7 +969,7 @@ def sweep(rep, R):
         lay, _ = R["model_layouts"][li]
         probs, known = sweep_problems(d, lay)
         users = [i for i in R["instances"] if i[4] == li]
-        if probs and not known:
+        if probs and not known and rep is not None:
             rep.failing(f"sweep:{d['kind']}:malformed-layout", f"{d['kind']} {users[0][1]}/{users[0][2]}{('/' + users[0][3]) if users[0][3] else ''} "
                         f"({len(users)} instances): {probs[0]}",
                         {"kind": "database-sweep", "instances": users[:20], "problems": probs[:20]})
@@ -976,6 +978,8 @@ def sweep(rep, R):
                 counts[k] = counts.get(k, 0) + 1
         elif not probs:
             counts["well-formed"] += 1
+            if all(not r["fields"] or covered_mask(r) == (1 << r["w"]) - 1 for r in lay["regs"]):
+                counts["well-formed and tiled by bit-fields"] = counts.get("well-formed and tiled by bit-fields", 0) + 1
     return counts
 
 
@@ -1345,10 +1349,23 @@ def run(tier):
     fut = pool.submit(run_impl_parallel, cases)
     # (P) proofs
     model_ok, mlog = vlib.coq_make(["Model/AreaModel.vo"])
-    if THEOREMS:
-        vlib.check_theorems(rep, PID, THEOREMS, ["Proofs/AreaProofs.vo"])
-        if tier == "thorough":
-            vlib.coqchk(rep, PID, THEOREMS)
+    built = vlib.check_theorems(rep, PID, THEOREMS, ["Proofs/AreaProofs.vo"])
+    checked = list(THEOREMS)
+    sweep_now = sweep(None, R)
+    for (thm, cls) in REFUTED:
+        ok, out = vlib.coqc(f"Props/{PID}/{thm}.v") if built or os.path.exists(os.path.join(vlib.COQ, "Proofs", "AreaProofs.vo")) else (False, "dependencies did not build")
+        closed = ok and all(c for (c, _) in vlib.parse_assumptions(out)) and vlib.parse_assumptions(out)
+        if closed:
+            rep.obligation(f"theorem:{thm}", True)
+            checked.append(thm)
+        elif built and not sweep_now.get(cls):
+            # the counter-example is gone from the database: the finding has disappeared (not a failure of the property)
+            vlib.log(f"  finding refuted by {thm} is no longer in the database (no layout of class '{cls}')")
+            rep.obligation(f"theorem:{thm} (finding no longer present)", True)
+        else:
+            rep.obligation(f"theorem:{thm}", False, out)
+    if tier == "thorough":
+        vlib.coqchk(rep, PID, checked)
     vlib.audit(rep)
     vlib.log(f"  coq: {time.time() - t0:.0f} s")
     # (T2) correspondence + oracles
